@@ -1,4 +1,5 @@
 import PcbV.Lemmas.Viewport
+import PcbV.Gen.Translated
 /-
   C30 — Graphics never draws outside the viewport or the active page.
 
@@ -498,5 +499,57 @@ theorem old_set_page_counterexample :
     ⟨rfl, by decide⟩, rfl, ?_, rfl, rfl, ?_⟩
   · intro h; exact absurd h.1 (by decide)
   · decide
+
+/-! ### tie to the source: the integer code of `GraphicsViewPort`
+
+`PcbV.Gen.Translated.vp*` are regenerated from the Python AST of `GraphicsViewPort.width`, `height`,
+`get_bounds`, `_convert_coords`, `contains`, `get_mid`, `cutoff_coord` (gen/tables_py2lean.py; parameters
+`absolute = self._absolute`, `(r0, r1, r2, r3) = self._rect`, `maxW, maxH = self._max_width, _max_height`;
+a method returning a tuple is one definition per component; calls of `get_bounds` / `_convert_coords`
+are the translated definitions).  The theorems say that the hand-written `View` functions are that code,
+for every viewport state and all integer coordinates. -/
+
+open PcbV.Gen.Translated in
+theorem translated_vp_supported :
+    vpWidth_supported = true ∧ vpHeight_supported = true ∧ vpBounds0_supported = true ∧
+    vpBounds1_supported = true ∧ vpBounds2_supported = true ∧ vpBounds3_supported = true ∧
+    vpConvert0_supported = true ∧ vpConvert1_supported = true ∧ vpContains_supported = true ∧
+    vpMid0_supported = true ∧ vpMid1_supported = true ∧ vpCutoff0_supported = true ∧
+    vpCutoff1_supported = true := by decide
+
+open PcbV.Gen.Translated in
+theorem translated_vpBounds_eq (v : View) :
+    v.getBounds = (vpBounds0 v.absolute v.x0 v.y0 v.x1 v.y1, vpBounds1 v.absolute v.x0 v.y0 v.x1 v.y1,
+      vpBounds2 v.absolute v.x0 v.y0 v.x1 v.y1, vpBounds3 v.absolute v.x0 v.y0 v.x1 v.y1) ∧
+    v.width = vpWidth v.x0 v.y0 v.x1 v.y1 ∧ v.height = vpHeight v.x0 v.y0 v.x1 v.y1 := by
+  simp [View.getBounds, View.xmin, View.ymin, View.xmax, View.ymax, View.width, View.height,
+    vpBounds0, vpBounds1, vpBounds2, vpBounds3, vpWidth, vpHeight]
+
+open PcbV.Gen.Translated in
+theorem translated_vpContains_eq (v : View) (x y : Int) :
+    v.contains x y = vpContains v.absolute v.x0 v.y0 v.x1 v.y1 x y := by
+  cases h : v.absolute <;>
+  simp [View.contains, View.xmin, View.ymin, View.xmax, View.ymax, View.width, View.height,
+    vpContains, vpBounds0, vpBounds1, vpBounds2, vpBounds3, vpWidth, vpHeight, h, Bool.and_assoc]
+
+open PcbV.Gen.Translated in
+theorem translated_vpConvert_eq (v : View) (x y : Int) :
+    v.convertCoords x y = (vpConvert0 v.absolute v.x0 v.y0 v.x1 v.y1 x y, vpConvert1 v.absolute v.x0 v.y0 v.x1 v.y1 x y) := by
+  cases h : v.absolute <;> simp [View.convertCoords, View.offX, View.offY, vpConvert0, vpConvert1, h]
+
+open PcbV.Gen.Translated in
+theorem translated_vpMid_eq (v : View) :
+    v.getMid = (vpMid0 v.absolute v.x0 v.y0 v.x1 v.y1, vpMid1 v.absolute v.x0 v.y0 v.x1 v.y1) := by
+  have e : ∀ z : Int, Int.fdiv z 2 = z / 2 := fun z => Int.fdiv_eq_ediv_of_nonneg z (by decide)
+  cases h : v.absolute <;>
+  simp [View.getMid, View.xmin, View.ymin, View.xmax, View.ymax, View.width, View.height,
+    vpMid0, vpMid1, vpBounds0, vpBounds1, vpBounds2, vpBounds3, vpWidth, vpHeight, h, e]
+
+open PcbV.Gen.Translated in
+theorem translated_vpCutoff_eq (v : View) (x y : Int) :
+    v.cutoffCoord x y = (vpCutoff0 v.absolute v.x0 v.y0 v.x1 v.y1 v.W v.H x y,
+      vpCutoff1 v.absolute v.x0 v.y0 v.x1 v.y1 v.W v.H x y) := by
+  cases h : v.absolute <;>
+  simp [View.cutoffCoord, View.convertCoords, View.offX, View.offY, vpCutoff0, vpCutoff1, vpConvert0, vpConvert1, h]
 
 end PcbV.C30
